@@ -94,8 +94,8 @@ def c15_rest(ctx, facts, nr):
 
     # ---- C15.5 drains stop at EOF and at the first error; framed readers propagate errors
     import drain_rules as DR
-    for adt, what in ((ER, "the length-limited body reader"), ("request::ChunkedBodyReader", "the chunked body reader")):
-        if facts.drop_fn(adt) is None:
+    for adt, what in ((ER, "the length-limited body reader"), (shared.chunked_reader_adt(facts), "the chunked body reader")):
+        if adt is None or facts.drop_fn(adt) is None:
             ctx.ob("C15.5", "%s|has-drain" % adt, "the body reader has a draining destructor", False, adt)
             continue
         DR.stops_rule(ctx, "C15.5", adt, what, emit=("stops",))
